@@ -34,3 +34,163 @@ def closed_world(ck):
 def norm_src(node):
     """normalised source text of a node (whitespace/quotes/number spelling independent)"""
     return ast.unparse(node)
+
+
+# ---- container mutated while it is being iterated -----------------------------------------------------------------------------
+SIZE_METHODS = {"pop", "popitem", "clear", "update", "setdefault", "append", "insert", "remove", "extend"}
+
+
+def _block_exits(stmts, in_inner_loop):
+    return any(_always_exits(s, in_inner_loop) for s in stmts)
+
+
+def _always_exits(s, in_inner_loop):
+    """does every path through statement s leave the iterating loop (return / raise / break of *that* loop)?"""
+    if isinstance(s, (ast.Return, ast.Raise)):
+        return True
+    if isinstance(s, ast.Break):
+        return not in_inner_loop
+    if isinstance(s, ast.If):
+        return bool(s.orelse) and _block_exits(s.body, in_inner_loop) and _block_exits(s.orelse, in_inner_loop)
+    if isinstance(s, ast.With):
+        return _block_exits(s.body, in_inner_loop)
+    return False
+
+
+def _child_blocks(s):
+    for name in ("body", "orelse", "finalbody"):
+        b = getattr(s, name, None)
+        if isinstance(b, list) and b and isinstance(b[0], ast.stmt):
+            yield b
+    for h in getattr(s, "handlers", []) or []:
+        yield h.body
+
+
+def _mutations(stmt, base_src, keyvar):
+    """size-changing uses of the container `base_src` in one simple statement"""
+    out = []
+    if isinstance(stmt, ast.Delete):
+        for t in stmt.targets:
+            if isinstance(t, ast.Subscript) and ast.unparse(t.value) == base_src:
+                out.append("del %s" % ast.unparse(t))
+    if isinstance(stmt, (ast.Assign, ast.AugAssign)):
+        tgts = stmt.targets if isinstance(stmt, ast.Assign) else []
+        for t in tgts:
+            if isinstance(t, ast.Subscript) and ast.unparse(t.value) == base_src:
+                k = t.slice
+                if not (isinstance(k, ast.Name) and k.id == keyvar):      # storing under the key being visited never changes the size
+                    out.append("%s = ..  (possibly a new key)" % ast.unparse(t))
+    for x in ast.walk(stmt):
+        if isinstance(x, ast.Call) and isinstance(x.func, ast.Attribute) and x.func.attr in SIZE_METHODS and ast.unparse(x.func.value) == base_src:
+            out.append("%s(..)" % ast.unparse(x.func))
+    return out
+
+
+def iter_mutation_sites(func_node):
+    """for every `for .. in X / X.items() / X.keys() / X.values()` loop of the function: the statements that can change the size of X
+    and from which some path reaches the next iteration (CPython raises RuntimeError for dicts, skips/repeats elements for lists).
+    Yields (loop node, statement node, description, ok)."""
+    for loop in ast.walk(func_node):
+        if not isinstance(loop, ast.For):
+            continue
+        it = loop.iter
+        if isinstance(it, ast.Call) and isinstance(it.func, ast.Attribute) and it.func.attr in ("items", "keys", "values") and not it.args:
+            base = it.func.value
+            kind = it.func.attr
+        elif isinstance(it, (ast.Attribute, ast.Name)):
+            base, kind = it, "iter"
+        else:
+            continue
+        base_src = ast.unparse(base)
+        keyvar = None
+        if kind == "items" and isinstance(loop.target, ast.Tuple) and isinstance(loop.target.elts[0], ast.Name):
+            keyvar = loop.target.elts[0].id
+        elif kind in ("keys", "iter") and isinstance(loop.target, ast.Name):
+            keyvar = loop.target.id
+
+        def visit(block, later_exits, in_inner):
+            # later_exits: does the code that follows this block (inside the loop) always leave the loop?
+            for i, s in enumerate(block):
+                rest_exits = later_exits or _block_exits(block[i + 1:], in_inner)
+                if isinstance(s, (ast.For, ast.While)):
+                    for b in _child_blocks(s):
+                        yield from visit(b, False, True)       # the inner loop may run again before anything after it
+                    continue
+                subs = list(_child_blocks(s))
+                if subs:
+                    for b in subs:
+                        yield from visit(b, rest_exits, in_inner)
+                    continue
+                for what in _mutations(s, base_src, keyvar):
+                    yield (loop, s, "`%s` while iterating `%s`" % (what, ast.unparse(it)), rest_exits)
+        yield from visit(loop.body, False, False)
+
+
+# ---- who may change a container held in an attribute ----------------------------------------------------------------------------
+LIST_MUTATORS = {"append", "pop", "insert", "remove", "clear", "extend", "sort", "reverse", "popitem", "update", "setdefault"}
+
+
+def attr_mutations(func_node, attr):
+    """sites in the function that change the content / order / identity of the container stored in `<obj>.<attr>`:
+    mutating method calls, `del x.attr[..]`, `x.attr[..] = ..`, re-binding, augmented assignment.  Reads (len, iteration, index loads,
+    truth tests, comparisons) are not listed.  -> [(node, description)]"""
+    parents = {}
+    for node in ast.walk(func_node):
+        for ch in ast.iter_child_nodes(node):
+            parents[id(ch)] = node
+    out = []
+    for node in ast.walk(func_node):
+        if not (isinstance(node, ast.Attribute) and node.attr == attr):
+            continue
+        par = parents.get(id(node))
+        gp = parents.get(id(par)) if par is not None else None
+        if isinstance(par, ast.Attribute) and isinstance(gp, ast.Call) and gp.func is par and par.attr in LIST_MUTATORS:
+            out.append((node, ".%s()" % par.attr))
+        elif isinstance(par, ast.Subscript) and par.value is node and isinstance(par.ctx, (ast.Del, ast.Store)):
+            out.append((node, "del item" if isinstance(par.ctx, ast.Del) else "item store"))
+        elif isinstance(node.ctx, (ast.Store, ast.Del)):
+            out.append((node, "re-binding"))
+        elif isinstance(par, ast.AugAssign) and par.target is node:
+            out.append((node, "augmented assignment"))
+    return out
+
+
+def class_funcs(cls):
+    return list(cls.methods.values()) + [f for p in cls.props.values() for f in (p.getter, p.setter) if f is not None and f.cls is cls]
+
+
+def all_funcs_with_cls(P):
+    for c in P.all_classes():
+        for f in class_funcs(c):
+            yield f, c
+    for m in P.modules.values():
+        for f in getattr(m, "funcs", {}).values():
+            yield f, None
+
+
+def allowed_via_callers(P, fi, allowed, seen=frozenset()):
+    """who-may-do rule that survives helper extraction: the function is one of the named owners, or it is a private helper all of whose
+    callers inside the package are (recursively) allowed.  -> (ok, reason)"""
+    from ..model import call_edges
+    if fi.name in allowed:
+        return True, ""
+    if not fi.name.startswith("_") or fi.name.startswith("__") or fi.qualname in seen:
+        return False, ""
+    seen = seen | {fi.qualname}
+    callers = []
+    for g, c in all_funcs_with_cls(P):
+        if g is fi:
+            continue
+        try:
+            edges = list(call_edges(P, g, c))
+        except Exception:  # noqa
+            continue
+        if any(t.kind == "func" and t.func is fi for _n, t in edges):
+            callers.append(g)
+    if not callers:
+        return False, " (never called inside the package)"
+    for g in callers:
+        ok, _w = allowed_via_callers(P, g, allowed, seen)
+        if not ok:
+            return False, " (called by %s)" % g.qualname
+    return True, ""
